@@ -23,6 +23,7 @@ RULES = {
     "C09.R1": lambda ctx: bldrules.add_with_id(ctx, "C09.R1"),
     "C09.R2": lambda ctx: bldrules.interning(ctx, "C09.R2"),
     "C09.R3": lambda ctx: bldrules.rewrite_loop(ctx, "C09.R3"),
+    "C09.R3b": lambda ctx: bldrules.contents_predicates(ctx, "C09.R3b"),
     "C09.R5": lambda ctx: bldrules.strip_prefixes(ctx, "C09.R5"),
     "C09.R6": lambda ctx: bldrules.hermes_permutation(ctx, "C09.R6"),
     "C09.R7": r7,
